@@ -5,7 +5,7 @@ use super::c19_world::default_project_files;
 use crate::framework::Tier;
 use crate::rng::Rng;
 
-pub const FILES_EXISTING: &[&str] = &["main.st", "lib.st", "src/util.st", "src/deep/leaf.st", "docs/readme.txt", "inlink.st", "indir/util.st"];
+pub const FILES_EXISTING: &[&str] = &["main.st", "lib.st", "src/util.st", "src/deep/leaf.st", "docs/readme.txt", "inlink.st", "indir/util.st", "Main.st", "src/Util.st"];
 pub const DIRS_EXISTING: &[&str] = &["src", "src/deep", "docs", "empty", "indir"];
 
 /// (class, path strings).  `${S}` = sentinel root, `${P}` = project root (absolute).
@@ -302,7 +302,13 @@ pub fn generate(rng: &mut Rng, tier: Tier) -> Json {
             39..=52 => {
                 let (cls, p) = g.any_path(35);
                 let (cls2, to) = if g.rng.chance(1, 2) { g.hostile() } else { ("plain-new".into(), g.new_path()) };
-                ops.push(json!({"k": "rename", "s": s, "p": p, "cls": cls, "to": to, "cls2": cls2, "we": g.we()}));
+                if g.rng.chance(1, 6) {
+                    // onto an existing file, in particular one whose name differs in letter case only
+                    let (from, onto) = *g.rng.pick(&[("Main.st", "main.st"), ("main.st", "Main.st"), ("src/Util.st", "src/util.st"), ("lib.st", "main.st"), ("src/util.st", "src/Util.st")]);
+                    ops.push(json!({"k": "rename", "s": s, "p": from, "cls": "plain", "to": onto, "cls2": "plain", "we": true}));
+                } else {
+                    ops.push(json!({"k": "rename", "s": s, "p": p, "cls": cls, "to": to, "cls2": cls2, "we": g.we()}));
+                }
             }
             53..=62 => {
                 let (cls, p) = g.any_path(60);
